@@ -61,7 +61,7 @@ def gen_cases(rng, tier):
             add(x, src)
             if rng.random() < 0.6:
                 add(x, recvlib.inject_mistakes(rng, src, rng.choice([1, 1, 2, 3])))
-    return recvprop.all_with_pairs(cases)
+    return recvprop.all_with_pairs(recvprop.with_groups(rng, cases, 0.1))
 
 
 def run(tier, seed, replay=None):
@@ -70,7 +70,7 @@ def run(tier, seed, replay=None):
     R.proof_coverage(vlib.proof_step(prop))
     if replay:
         c = json.load(open(replay))["case"]
-        raw = [{k: c[k] for k in ("target", "src", "entry", "pairs") if k in c}]
+        raw = [{k: c[k] for k in ("target", "src", "entry", "pairs", "group_all") if k in c}]
     else:
         raw = gen_cases(R.rng, tier)
     out = recvprop.recv_part(
